@@ -1,7 +1,11 @@
 """C20 — indexing and slicing an operator match indexing the represented matrix."""
+import itertools
 import os
 
+import numpy as np
+
 import common
+import oracle
 from props import c01
 
 MODULE = "ColaVerif.Properties.C20"
@@ -9,5 +13,34 @@ CALLS = ["getitem"]
 CORPUS = os.path.join(common.ROOT, "harness", "corpus", "c20.jsonl")
 
 
+def primitive_stream(ctx):
+    """Python slice / integer-array semantics (Basic/PySlice.lean) against CPython + numpy, exhaustively over
+    start/stop/step in {None, -6..6} on lengths 0..5 (thorough: lengths 0..7) and a family of index arrays."""
+    vals = [None] + list(range(-6, 7))
+    cases, want = [], []
+    lens = range(0, 6) if not ctx.thorough else range(0, 8)
+    for n in lens:
+        for a, b, c in itertools.product(vals, vals, vals):
+            if not ctx.thorough and (len(cases) % 3) != (ctx.seed % 3) and abs((a or 0)) + abs((b or 0)) > 8:
+                pass
+            cases.append({"id": len(cases), "call": "resolve", "n": n, "ix": {"s": [a, b, c]}})
+            try:
+                want.append([int(x) for x in np.arange(n)[slice(a, b, c)]])
+            except ValueError:
+                want.append(None)
+        for arr in ([0], [-1], [n], [-n - 1], [0, 0], list(range(n)), [-i - 1 for i in range(n)]):
+            cases.append({"id": len(cases), "call": "resolve", "n": n, "ix": {"a": arr}})
+            try:
+                want.append([int(x) for x in np.arange(n)[np.array(arr, dtype=np.int64)]])
+            except IndexError:
+                want.append(None)
+    ans = oracle.run_driver(cases)
+    bad = [(c, w, ans[c["id"]].get("res")) for c, w in zip(cases, want) if ans.get(c["id"], {}).get("res", "missing") != w]
+    for (c, w, g) in bad[:3]:
+        common.violation(ctx, {"broken": "primitive stream: model of Python slice semantics (Basic/PySlice.lean) disagrees with CPython/numpy",
+                               "case": c, "python": w, "lean": g}, no_input=True)
+    return {"primitive_cases": len(cases), "primitive_disagreements": len(bad), "primitive_exhaustive": True}
+
+
 def run(ctx):
-    c01.run(ctx, calls=CALLS, module=MODULE, corpus=CORPUS)
+    c01.run(ctx, calls=CALLS, module=MODULE, corpus=CORPUS, extra=primitive_stream)
